@@ -10,26 +10,27 @@ CONSTANTS
   KIND <- c_KIND
   DECI <- c_DECI
   GENPRICE <- c_GENPRICE
+  PRELUDE <- c_PRELUDE
   AVSINFO <- c_AVSINFO
-  PRELUDE <- c_GENPRELUDE
   REGISTERED = {"a1", "a2"}
   PREC = 100
   UNBOND = 1
   HOLDOPS = {}
-  AMOUNTS = {1, 2}
-  PRICES = {1, 2, 3}
-  PDECS = {0, 1}
-  XFORMS = {"canon"}
-  FACTORS = {25, 50}
+  AMOUNTS = {2}
+  PRICES = {3}
+  PDECS = {1}
+  XFORMS = {"canon", "alt"}
+  FACTORS = {50}
   POWERS = {1}
-  SLASHIDS = {"i1", "i2"}
-  UPDAVS = {"avsB"}
+  SLASHIDS = {"i1"}
+  UPDAVS = {}
   UPDLISTS <- c_UPDLISTS
-  UPDMINS = {0, 1, 5}
-  PREDEP = 6
-  MAXOPS = 20
-  FAILBUDGET = 2
-  MAXEPOCH = 40
-  EPOCHEVERY = 5
-INVARIANTS EmitAtDepth
+  UPDMINS = {1}
+  PREDEP = 3
+  MAXOPS = 4
+  FAILBUDGET = 99
+  MAXEPOCH = 4
+  EPOCHEVERY = 99
+VIEW View
+INVARIANTS InvC05 InvNonNeg InvNotOptedIn InvHookNeverFails
 CHECK_DEADLOCK FALSE
